@@ -927,7 +927,8 @@ class ExprMixin:
         if isinstance(t, T.SetT):
             return t.elem, (lambda x: z3.Select(coll.z, x)), True
         if isinstance(t, T.ListV):
-            return t.elem, (lambda x: z3.Select(t.elems(coll.z), x)), False
+            # a list built from a set / dict view has no repeated element
+            return t.elem, (lambda x: z3.Select(t.elems(coll.z), x)), coll.aux == ("unique",)
         if isinstance(t, T.ListT):
             return t.elem, (lambda x: z3.Contains(coll.z, z3.Unit(x))), False
         if isinstance(t, T.DictT):
